@@ -161,6 +161,7 @@ type genOpts struct {
 	profile   string
 	twinAll   bool
 	dryPct    int
+	fine      bool // large node sizes (in units), so that utilisation takes fine-grained values
 }
 
 // weights of the event kinds per profile (per cent-ish; normalised when drawn)
@@ -253,6 +254,9 @@ func genInit(r *rand.Rand, o genOpts) *world.State {
 			cfg.Max = n + r.Intn(3)
 		}
 		kc, km := 4+2*r.Intn(4), 4+2*r.Intn(4)
+		if o.fine && r.Intn(3) > 0 {
+			kc, km = []int{40, 64, 100}[r.Intn(3)], []int{40, 64, 100}[r.Intn(3)]
+		}
 		gs := world.Group{Cfg: cfg, Api: world.NodeMap{}, Pods: []world.Pod{}, Order: []string{}, Accepted: world.Never,
 			Ctl: world.Ctl{LockAt: world.Never, LastOut: world.Never, Tracker: []string{}}}
 		var members []string
@@ -436,6 +440,7 @@ func cmdDrive(fs *flag.FlagSet, args []string) {
 	profile := fs.String("profile", "mix", "event mix: mix | down | reap | up | lock")
 	twinAll := fs.Bool("twin", false, "twin-scan a clone with a fresh controller at every scan")
 	dryPct := fs.Int("dry", 12, "percent of groups in dry mode")
+	fine := fs.Bool("fine", false, "large node sizes: fine-grained utilisation values")
 	trace := fs.String("trace", "trace.ndjson", "output: scan lines for TLC")
 	events := fs.String("events", "", "output: all events (for replay)")
 	par := fs.Int("par", 1, "parallel histories (metrics are process-global: keep 1 when gauges matter)")
@@ -447,7 +452,7 @@ func cmdDrive(fs *flag.FlagSet, args []string) {
 		ev = newOut(*events)
 		defer ev.close()
 	}
-	o := genOpts{maxNodes: *maxNodes, maxGroups: *maxGroups, steps: *steps, faultPct: *faultPct, fleet: *fleet, lag: *lag, odd: *odd, profile: *profile, twinAll: *twinAll, dryPct: *dryPct}
+	o := genOpts{maxNodes: *maxNodes, maxGroups: *maxGroups, steps: *steps, faultPct: *faultPct, fleet: *fleet, lag: *lag, odd: *odd, profile: *profile, twinAll: *twinAll, dryPct: *dryPct, fine: *fine}
 	var wg sync.WaitGroup
 	sem := make(chan struct{}, *par)
 	var mu sync.Mutex
